@@ -13,7 +13,7 @@ import numpy as np
 from . import configs
 from .core import ChoiceSource, HarnessError, Violation, enumerate_scripts
 from .observe import algo_digest
-from .seams import ExpansionRecorder, RngSeam
+from .seams import ExpansionRecorder, RngSeam, StepBudget
 
 _SEAM = None
 
@@ -128,7 +128,11 @@ def reward_dev(base, R, name=None):
 # base reward scripts for E-dev -----------------------------------------------------
 def _x0(ctx):
     lo, hi = ctx.cfg["domain"][0]
-    return (ctx.x[0] - lo) / (hi - lo)
+    try:
+        u = (float(ctx.x[0]) - lo) / (hi - lo)
+    except Exception:
+        return 0.5
+    return u if u == u else 0.5
 
 
 def base_zero(ctx):
@@ -179,6 +183,8 @@ def execute(cfg, script, expect, changed_pos, T, reward_fn, oracles, learner_cla
         ctx.algo, ctx.domain = configs.build(cfg, learner_classes)
     except (Violation, HarnessError):
         raise
+    except StepBudget.Hang:
+        raise AlgoCrash("constructor", RuntimeError("did not return within the branch budget (hang)"), "")
     except Exception as e:  # noqa
         raise AlgoCrash("constructor", e, traceback.format_exc())
     if construct_hook:
@@ -196,6 +202,8 @@ def execute(cfg, script, expect, changed_pos, T, reward_fn, oracles, learner_cla
             x = ctx.algo.pull(lab)
         except (Violation, HarnessError):
             raise
+        except StepBudget.Hang:
+            raise AlgoCrash("pull", RuntimeError("did not return within the branch budget (hang)"), "")
         except Exception as e:  # noqa
             ctx.src_points = src.points
             raise AlgoCrash("pull", e, traceback.format_exc())
@@ -211,6 +219,8 @@ def execute(cfg, script, expect, changed_pos, T, reward_fn, oracles, learner_cla
             ctx.algo.receive_reward(lab, r)
         except (Violation, HarnessError):
             raise
+        except StepBudget.Hang:
+            raise AlgoCrash("receive_reward", RuntimeError("did not return within the branch budget (hang)"), "")
         except Exception as e:  # noqa
             ctx.src_points = src.points
             raise AlgoCrash("receive_reward", e, traceback.format_exc())
@@ -219,6 +229,18 @@ def execute(cfg, script, expect, changed_pos, T, reward_fn, oracles, learner_cla
     for o in oracles:
         o.end(ctx)
     return src.points, ctx
+
+
+def soft_violation(ctx, v, T=None):
+    """Record a violation without aborting the execution (one record per distinct key)."""
+    st = ctx.extra["stats"]
+    key = (v.oracle, ctx.cfg.get("algo"), ctx.cfg.get("part"), ctx.cfg.get("K"), tuple(sorted(map(str, v.details.items()))))
+    e = st.soft.get(key)
+    if e is not None:
+        e[1] += 1
+        return
+    st.soft[key] = [{"config": ctx.cfg, "script": [p[2] for p in ctx.src.points], "oracle": v.oracle, "message": v.message,
+                     "details": _jsonable(v.details), "T": T if T is not None else ctx.t, "soft": True}, 1]
 
 
 class Oracle:
@@ -257,6 +279,7 @@ class Stats:
         self.caps = []
         self.known = []
         self.ambiguous = 0
+        self.soft = {}  # key -> [violation record, count]: violations that do not abort the execution
 
     def bump(self, key, n=1):
         self.counters[key] = self.counters.get(key, 0) + n
@@ -281,6 +304,11 @@ class Stats:
         self.caps += o.caps
         self.known += o.known
         self.ambiguous += o.ambiguous
+        for k, (v, n) in o.soft.items():
+            if k in self.soft:
+                self.soft[k][1] += n
+            else:
+                self.soft[k] = [v, n]
 
 
 class StopEnumeration(Exception):
